@@ -16,7 +16,7 @@ from vmon.res import Result, exc_name
 
 ID = "C07"
 LEVEL = "exploration"
-CASES = {"quick": 12000, "thorough": 240000}
+CASES = {"quick": 12000, "thorough": 1200000}
 RULE = ("seeded random (helper, arguments, dtype, group layout) cases: every helper x each dtype it accepts x drop_na in {default,True,False} "
         "x ddof in {0,1,2} x index in {0,1,-1,-2,5,-6} x q in {0,.1,.25,.5,.9,1}; 1-4 groups of 1-6 elements in interleaved row order incl. "
         "single-element and all-missing groups, plus empty vectors in the vector form; non-trivial = a group with >= 2 elements or a "
